@@ -278,6 +278,24 @@ class PathCtx:
         self.sqrt_cache[k] = res
         return res
 
+    def fresh_root(self, x: SymReal, k: int) -> SymReal:
+        """k-th root of a non-negative number: fresh rho >= 0 with rho**k = x"""
+        t = z3.simplify(x.t)
+        key = (t.get_id(), k)
+        if key in self.sqrt_cache:
+            return self.sqrt_cache[key]
+        self.fresh_n += 1
+        r = z3.Real(f"_root{k}_{self.fresh_n}")
+        self.hidden.append(r)
+        self.stats.sqrt_introduced += 1
+        pw = r
+        for _ in range(k - 1):
+            pw = pw * r
+        self.add_assumption(z3.And(r >= 0, pw == t))
+        res = SymReal(r)
+        self.sqrt_cache[key] = res
+        return res
+
     def trig(self, x: SymReal):
         t = z3.simplify(x.t)
         k = t.get_id()
